@@ -6,6 +6,7 @@ import (
 	"database/sql"
 	"encoding/json"
 	"fmt"
+	"math"
 	"math/big"
 	"runtime/debug"
 	"sort"
@@ -405,6 +406,11 @@ func (h *c02h) apply(s *c02state, o c02op, st *report.Stats) (ns *c02state, viol
 			logs = append(logs, fakechain.IdentityRegistered(syncx.RegistryAddr, c02Set, prefix32(pb), sender, c02T1-uint64(i)))
 			m.Regs = append(m.Regs, c02reg{pb, c02Set, c02T1 - uint64(i), num})
 		}
+	case "regNever":
+		// release times that do not fit into a signed 64-bit integer (2^64-1: "never")
+		logs = append(logs, fakechain.IdentityRegistered(syncx.RegistryAddr, c02Set, prefix32(0x99), sender, math.MaxUint64),
+			fakechain.IdentityRegistered(syncx.RegistryAddr, c02Set, prefix32(0x9a), sender, 1<<63))
+		m.Regs = append(m.Regs, c02reg{0x99, c02Set, math.MaxUint64, num}, c02reg{0x9a, c02Set, 1 << 63, num})
 	case "regOther":
 		logs = append(logs, fakechain.IdentityRegistered(syncx.RegistryAddr, c02OtherSet, prefix32(0xc3), sender, c02T1))
 		m.Regs = append(m.Regs, c02reg{0xc3, c02OtherSet, c02T1, num})
@@ -539,7 +545,7 @@ func c02alphabet() []c02op {
 			ops = append(ops, c02op{Kind: "block", Dt: dt, Content: c})
 		}
 	}
-	ops = append(ops, c02op{Kind: "block", Dt: 5, Content: "trigB"})
+	ops = append(ops, c02op{Kind: "block", Dt: 5, Content: "trigB"}, c02op{Kind: "block", Dt: 5, Content: "regNever"})
 	for _, c := range []string{"none", "hit", "trig", "trigB"} {
 		ops = append(ops, c02op{Kind: "block", Dt: 5, Content: c, Skip: true})
 	}
@@ -568,7 +574,7 @@ func c02seeds() [][]c02op {
 func c02() *report.Check {
 	return &report.Check{
 		Level: "model_checking",
-		Rule:  "explicit-state BFS from five scripted seed states over {next block with timestamp delta in {+5, 0, -3} and content in {nothing, registration A (release time between blocks), registration B (release time equal to a block time), registration E (release time already past, matters below the activation block), registration for a set the keyper is not in, event-trigger registration (topic and value bound) expiring three blocks later, a second registration with the same definition expiring one block later, blocks the keyper does not process (so that the next one syncs a range of several blocks), matching log, logs missing on the topic / just above the bound / above 2^64 with low bits inside the bound}, eon start / success / failure, key release for A / B / the trigger identity, restart}; every block processed by the real processNewBlock with the real syncers on a fake chain, every emitted trigger consumed by the real KeyShareHandler through the service middleware; monitor from the statement on every identity of every trigger and of every published shares message. Classes = kinds of step and numbers of triggers / shares",
+		Rule:  "explicit-state BFS from five scripted seed states over {next block with timestamp delta in {+5, 0, -3} and content in {nothing, registration A (release time between blocks), registration B (release time equal to a block time), registration E (release time already past, matters below the activation block), registration for a set the keyper is not in, registrations with release times 2^63 and 2^64-1, event-trigger registration (topic and value bound) expiring three blocks later, a second registration with the same definition expiring one block later, blocks the keyper does not process (so that the next one syncs a range of several blocks), matching log, logs missing on the topic / just above the bound / above 2^64 with low bits inside the bound}, eon start / success / failure, key release for A / B / the trigger identity, restart}; every block processed by the real processNewBlock with the real syncers on a fake chain, every emitted trigger consumed by the real KeyShareHandler through the service middleware; monitor from the statement on every identity of every trigger and of every published shares message. Classes = kinds of step and numbers of triggers / shares",
 		Assumptions: []string{
 			"the identity of a registration is looked up in the keyper's own event tables (their correctness is C15/C16's subject)",
 			"safety only: that an eligible identity is eventually triggered is not demanded",
